@@ -343,10 +343,8 @@ class HplPattern(HplAstObject):
     def __str__(self) -> str:
         t = ''
         if self.max_time < INF:
-            if self.max_time < 1.0:
-                t = f' within {self.max_time * 1000}ms'
-            else:
-                t = f' within {self.max_time}s'
+            # seconds print exactly (repr of a float round-trips); multiplying by 1000 does not
+            t = f' within {self.max_time}s'
         if self.pattern_type.is_existence:
             return f'some {self.behaviour}{t}'
         if self.pattern_type.is_absence:
